@@ -1051,7 +1051,7 @@ Proof.
   set (ds := isort (fun d => d) (deltas_of no (present c))).
   assert (L : length ds = length (map (bin_mom no (present c)) (keys_of (present c)))).
   { unfold ds. rewrite <- (Permutation_length (isort_perm _ _ _)). unfold deltas_of. now rewrite map_length. }
-  unfold src_c10_max_kbest. apply Z.ltb_lt in Hk. rewrite Hk. rewrite Nat2Z.id, <- L, firstn_all.
+  unfold src_c10_max_kbest. apply Z.ltb_lt in Hk. rewrite Hk, Z.min_id. rewrite Nat2Z.id, <- L, firstn_all.
   destruct (prefix_sums_last ds (miss_rss no c + qsum (map (vbin_r2 no) (map (bin_mom no (present c)) (keys_of (present c)))))) as (x & Hx & E).
   { intro E. rewrite E in L. cbn in L. rewrite map_length in L. destruct (keys_of (present c)); [congruence|discriminate]. }
   exists x. split; [exact Hx|]. rewrite E, dense_rss_deltas by exact H0. apply Qplus_inj_l. symmetry. apply qsum_perm, isort_perm.
@@ -1101,7 +1101,9 @@ Proof.
   intros H0 Hne. unfold kbest_rss_seq. fold (deltas_of no (present c)).
   set (rows := present c) in *. set (keys := keys_of rows) in *.
   set (rss0 := miss_rss no c + qsum (map (vbin_r2 no) (map (bin_mom no rows) keys))).
-  assert (K1 : Z.to_nat (src_c10_max_kbest 1 (Z.of_nat (length (map (bin_mom no rows) keys)))) = 1%nat) by reflexivity.
+  assert (K1 : Z.to_nat (src_c10_max_kbest 1 (Z.of_nat (length (map (bin_mom no rows) keys)))) = 1%nat).
+  { unfold src_c10_max_kbest. rewrite map_length. change (1 <? 1)%Z with false. cbv iota.
+    destruct keys as [|k0 ks]; [congruence|]. cbn [length]. rewrite Z.min_r by lia. reflexivity. }
   rewrite K1. clear K1.
   pose proof (isort_perm _ (fun d : Q => d) (deltas_of no rows)) as P.
   pose proof (isort_sorted _ (fun d : Q => d) (deltas_of no rows)) as S.
